@@ -1,1 +1,251 @@
-(* C17 stub: to be written *)
+(* C17 -- model of epgpy/stats.py: crlb (cost and gradient), crlb_split, confint.
+
+   Scalars: a field with conjugation ([FieldOps] = [ScalOps] + inverse + 1/2).  Arrays are lists (matrix = list
+   of rows, rank-3 tensor = list of matrices), every function is defined index-wise with [tab]; the einsum
+   contractions are the primitives of the menu generated in Gen/StatsTables.v ([einsum_prim]).
+   `numpy.linalg.inv` is a parameter [inv] of every model function (an external numeric); the executable
+   instance is the adjugate inverse [minv_adj], whose result is checked (A * inv A = I = inv A * A) by
+   [inv_ok_b] next to every evaluation.  `.real` is [kre z = 1/2 (z + conj z)]; the real numbers of the
+   code (sigma2, W, t, dof) are real elements of the field.
+   One batch element is modelled; leading batch axes are [map] ([crlb_batch]). *)
+From Coq Require Import List ZArith QArith Qabs Qcanon Lia Bool.
+From EPG Require Import Scalar QI State StatsTables.
+Import ListNotations.
+
+Record FieldOps : Type := mkFieldOps {
+  fscal :> ScalOps;
+  kinv : fscal -> fscal;
+  khalf : fscal
+}.
+Arguments kinv {_}. Arguments khalf {_}.
+
+Record FieldLaws (F : FieldOps) : Prop := mkFieldLaws {
+  f_scal : ScalLaws F;
+  kinv_l : forall x : F, x <> k0 -> (kinv x * x)%K = k1;
+  khalf_2 : (@khalf F + khalf)%K = k1
+}.
+
+Section Model.
+Variable F : FieldOps.
+
+Fixpoint ksum (n : nat) (f : nat -> F) : F :=
+  match n with O => k0 | S m => (ksum m f + f m)%K end.
+
+Definition kre (z : F) : F := (khalf * (z + kconj z))%K.
+Fixpoint kofnat (n : nat) : F := match n with O => k0 | S m => (kofnat m + k1)%K end.
+
+Definition vec := list F.
+Definition mat := list (list F).
+Definition ten3 := list (list (list F)).
+Definition vget (v : vec) (i : nat) : F := nth i v k0.
+Definition mget (M : mat) (i j : nat) : F := nth j (nth i M []) k0.
+Definition t3get (T : ten3) (i j k : nat) : F := nth k (nth j (nth i T []) []) k0.
+Definition mtab (r c : nat) (f : nat -> nat -> F) : mat := tab r (fun i => tab c (fun j => f i j)).
+Definition t3tab (a b c : nat) (f : nat -> nat -> nat -> F) : ten3 :=
+  tab a (fun i => tab b (fun j => tab c (fun k => f i j k))).
+Definition kdelta (i j : nat) : F := if Nat.eqb i j then k1 else k0.
+
+(* ---- menu of contractions (einsum_prim) *)
+(* EGram  "...np,...nq->...pq" (X.conj(), X) *)
+Definition gram (n p : nat) (J : mat) : mat :=
+  mtab p p (fun a b => ksum n (fun k => (kconj (mget J k a) * mget J k b)%K)).
+(* EHJ  "...npx,...nq->...qpx" (H.conj(), J) *)
+Definition ehj (n p nx : nat) (H : ten3) (J : mat) : ten3 :=
+  t3tab p p nx (fun q a x => ksum n (fun k => (kconj (t3get H k a x) * mget J k q)%K)).
+(* EGrad  "...pq,...qrx,...rp->...x" (A, B, C) *)
+Definition egrad (p nx : nat) (A : mat) (B : ten3) (C : mat) : vec :=
+  tab nx (fun x => ksum p (fun a => ksum p (fun q => ksum p (fun r =>
+     (mget A a q * t3get B q r x * mget C r a)%K)))).
+(* EHessOuter  "...nqp,...y->...pq" : n and y are summed independently *)
+Definition ehess_outer (n p : nat) (H : ten3) (res : vec) : mat :=
+  mtab p p (fun a b => ksum n (fun k => ksum n (fun y => (kconj (t3get H k b a) * vget res y)%K))).
+(* EHessContract  "...nqp,...n->...pq" *)
+Definition ehess_contract (n p : nat) (H : ten3) (res : vec) : mat :=
+  mtab p p (fun a b => ksum n (fun k => (kconj (t3get H k b a) * vget res k)%K)).
+(* EPredVar  "...np,...pq,...nq->...n" (jac.conj(), cov, jac) *)
+Definition epredvar (n p : nat) (J cov : mat) : vec :=
+  tab n (fun k => ksum p (fun a => ksum p (fun b => (kconj (mget J k a) * mget cov a b * mget J k b)%K))).
+
+Definition mre (r c : nat) (M : mat) : mat := mtab r c (fun i j => kre (mget M i j)).
+
+(* ---- crlb *)
+(* I = 1 / sigma2 * einsum(EGram).real *)
+Definition fisher (n p : nat) (sigma2 : F) (J : mat) : mat :=
+  mtab p p (fun a b => (kinv sigma2 * kre (mget (gram n p J) a b))%K).
+
+(* W = asarray(W)[..., newaxis] or 1 ;  (W * lb)[a][b] = W[a] * lb[a][b] *)
+Definition wget (W : option vec) (a : nat) : F := match W with None => k1 | Some w => vget w a end.
+Definition wscale (p : nat) (W : option vec) (B : mat) : mat := mtab p p (fun a b => (wget W a * mget B a b)%K).
+Definition mtrace (p : nat) (M : mat) : F := ksum p (fun a => mget M a a).
+
+Section WithInv.
+Variable inv : mat -> mat.        (* numpy.linalg.inv *)
+
+Definition crlb_lb (n p : nat) (J : mat) (sigma2 : F) : mat := inv (fisher n p sigma2 J).
+
+(* cost = trace(W * lb) *)
+Definition crlb (n p : nat) (J : mat) (W : option vec) (sigma2 : F) : F :=
+  mtrace p (wscale p W (crlb_lb n p J sigma2)).
+
+(* HJ = einsum(EHJ) * 1 / sigma2 ; HJ += moveaxis(HJ, -3, -2).conj() *)
+Definition hj1 (n p nx : nat) (H : ten3) (J : mat) (sigma2 : F) : ten3 :=
+  t3tab p p nx (fun q a x => (t3get (ehj n p nx H J) q a x * k1 * kinv sigma2)%K).
+Definition hj2 (p nx : nat) (HJ : ten3) : ten3 :=
+  t3tab p p nx (fun a b x => (t3get HJ a b x + kconj (t3get HJ b a x))%K).
+Definition t3re (a b c : nat) (T : ten3) : ten3 := t3tab a b c (fun i j k => kre (t3get T i j k)).
+
+(* grad = -einsum(EGrad)(W * lb, HJ.real, lb) *)
+Definition crlb_grad (n p nx : nat) (J : mat) (H : ten3) (W : option vec) (sigma2 : F) : vec :=
+  let lb := crlb_lb n p J sigma2 in
+  let HJ := hj2 p nx (hj1 n p nx H J sigma2) in
+  map kopp (egrad p nx (wscale p W lb) (t3re p p nx HJ) lb).
+
+(* crlb_split: crb = diag(lb) ; crb *= W  (the returned array has the parameter axis first: harness) *)
+Definition crlb_split (n p : nat) (J : mat) (W : option vec) (sigma2 : F) : vec :=
+  let lb := crlb_lb n p J sigma2 in
+  tab p (fun a => match W with None => mget lb a a | Some w => (mget lb a a * vget w a)%K end).
+
+(* ---- confint *)
+Definition residual (n : nat) (obs pred : vec) : vec := tab n (fun k => (vget obs k - vget pred k)%K).
+(* sse = sum(res * res.conj()).real *)
+Definition sse (n : nat) (res : vec) : F := kre (ksum n (fun k => (vget res k * kconj (vget res k))%K)).
+
+(* Hessian branch.  [outer]/[plus] are the switches read off the source by the translator
+   (confint_hess_outer / confint_hess_plus): which contraction, and the sign with which the term enters. *)
+Definition hess_term (outer : bool) (n p : nat) (H : ten3) (res : vec) : mat :=
+  mre p p (if outer then ehess_outer n p H res else ehess_contract n p H res).
+Definition hmle (outer plus : bool) (n p : nat) (J : mat) (H : ten3) (res : vec) : mat :=
+  let G := mre p p (gram n p J) in
+  let T := hess_term outer n p H res in
+  mtab p p (fun a b => if plus then (mget G a b + mget T a b)%K else (mget G a b - mget T a b)%K).
+
+(* matrix handed to linalg.inv *)
+Definition confint_info (outer plus : bool) (n p : nat) (J : mat) (H : option ten3) (res : vec) : mat :=
+  match H with
+  | None => mre p p (gram n p J)
+  | Some h => hmle outer plus n p J h res
+  end.
+
+(* cov = inv(...) ; cov *= sse / dof *)
+Definition confint_cov (outer plus : bool) (n p : nat) (obs pred : vec) (J : mat) (H : option ten3) : mat :=
+  let res := residual n obs pred in
+  let c := inv (confint_info outer plus n p J H res) in
+  mtab p p (fun a b => (mget c a b * (sse n res * kinv (kofnat (n - p))))%K).
+
+(* variances: cints = tval * sqrt(var_a), cband = tval * sqrt(predvar_k) *)
+Definition confint_var (outer plus : bool) (n p : nat) (obs pred : vec) (J : mat) (H : option ten3) : vec :=
+  let cov := confint_cov outer plus n p obs pred J H in tab p (fun a => mget cov a a).
+Definition confint_predvar (outer plus : bool) (n p : nat) (obs pred : vec) (J : mat) (H : option ten3) : vec :=
+  let cov := confint_cov outer plus n p obs pred J H in
+  tab n (fun k => kre (vget (epredvar n p J cov) k)).
+
+(* the returned half-widths, with the square root as a parameter (numpy.sqrt on reals) *)
+Definition confint_cints (sqrt : F -> F) (tval : F) (outer plus : bool) (n p : nat) (obs pred : vec) (J : mat)
+  (H : option ten3) : vec := map (fun v => (tval * sqrt v)%K) (confint_var outer plus n p obs pred J H).
+Definition confint_cband (sqrt : F -> F) (tval : F) (outer plus : bool) (n p : nat) (obs pred : vec) (J : mat)
+  (H : option ten3) : vec := map (fun v => (tval * sqrt v)%K) (confint_predvar outer plus n p obs pred J H).
+
+(* leading batch axes: one independent problem per batch element *)
+Definition crlb_batch (n p : nat) (Js : list mat) (W : option vec) (sigma2 : F) : list F :=
+  map (fun J => crlb n p J W sigma2) Js.
+
+End WithInv.
+
+(* ---- executable inverse: adjugate / determinant by Laplace expansion (sizes <= 4 in practice) *)
+Definition drop_nth {A} (j : nat) (l : list A) : list A := firstn j l ++ skipn (S j) l.
+Definition ksign (j : nat) (x : F) : F := if Nat.even j then x else kopp x.
+Fixpoint det (fuel : nat) (M : mat) : F :=
+  match fuel with
+  | O => k1
+  | S f => match M with
+           | [] => k1
+           | row :: rest =>
+             ksum (length row) (fun j => (ksign j (nth j row k0) * det f (map (drop_nth j) rest))%K)
+           end
+  end.
+Definition minor (i j : nat) (M : mat) : mat := map (drop_nth j) (drop_nth i M).
+Definition minv_adj (M : mat) : mat :=
+  let p := length M in
+  let d := kinv (det p M) in
+  mtab p p (fun i j => (d * ksign (i + j) (det (p - 1) (minor j i M)))%K).
+
+Definition lmul (p : nat) (A B : mat) : mat := mtab p p (fun i j => ksum p (fun k => (mget A i k * mget B k j)%K)).
+Definition meqb (p : nat) (A B : mat) : bool :=
+  forallb (fun i => forallb (fun j => keqb (mget A i j) (mget B i j)) (seq 0 p)) (seq 0 p).
+Definition mident (p : nat) : mat := mtab p p kdelta.
+(* the hypothesis of the theorems, as a check evaluated next to every result *)
+Definition inv_ok_b (inv : mat -> mat) (p : nat) (A : mat) : bool :=
+  meqb p (lmul p A (inv A)) (mident p) && meqb p (lmul p (inv A) A) (mident p).
+
+End Model.
+
+Arguments ksum {F}. Arguments kre {F}. Arguments kofnat {F}. Arguments vget {F}. Arguments mget {F}.
+Arguments t3get {F}. Arguments mtab {F}. Arguments t3tab {F}. Arguments kdelta {F}.
+Arguments gram {F}. Arguments ehj {F}. Arguments egrad {F}. Arguments ehess_outer {F}.
+Arguments ehess_contract {F}. Arguments epredvar {F}. Arguments mre {F}. Arguments fisher {F}.
+Arguments wget {F}. Arguments wscale {F}. Arguments mtrace {F}. Arguments crlb_lb {F}. Arguments crlb {F}.
+Arguments hj1 {F}. Arguments hj2 {F}. Arguments t3re {F}. Arguments crlb_grad {F}. Arguments crlb_split {F}.
+Arguments residual {F}. Arguments sse {F}. Arguments hess_term {F}. Arguments hmle {F}.
+Arguments confint_info {F}. Arguments confint_cov {F}. Arguments confint_var {F}.
+Arguments confint_predvar {F}. Arguments confint_cints {F}. Arguments confint_cband {F}.
+Arguments crlb_batch {F}. Arguments det {F}. Arguments minor {F}. Arguments minv_adj {F}.
+Arguments lmul {F}. Arguments meqb {F}. Arguments mident {F}. Arguments inv_ok_b {F}. Arguments ksign {F}.
+
+(* the menu entries the model functions above are written for; Proofs/StatsProofs.v proves that the generated
+   lists coincide with them (so a change of contraction in the source breaks an obligation) *)
+Definition crlb_menu : list einsum_prim := [EGram; EHJ; EGrad].
+Definition crlb_split_menu : list einsum_prim := [EGram].
+Definition confint_menu (outer plus : bool) : list einsum_prim :=
+  (* source order of the einsum calls: the first assigned term of Hmle, the accumulated one, jac2, predvar *)
+  let h := if outer then EHessOuter else EHessContract in
+  (if plus then [h; EGram] else [EGram; h]) ++ [EGram; EPredVar].
+
+(* ---- t table *)
+Definition tstat_lookup (level : Q) (nu : nat) : option Q :=
+  match find (fun e => Qeq_bool (fst (fst e)) level && Nat.eqb (snd (fst e)) nu) tstat_table with
+  | Some e => Some (snd e)
+  | None => None
+  end.
+
+(* ---- executable instance: Gaussian rationals with division *)
+Definition qi_inv (x : QI) : QI :=
+  let d := (fst x * fst x + snd x * snd x)%Qc in (fst x / d, - snd x / d)%Qc.
+Definition QIF : FieldOps := mkFieldOps QIops qi_inv (qr 1 2).
+
+(* tolerance comparison of the real parts, used only by the correspondence:
+   |re x - re y| <= tol * (1 + |re y|)  and the imaginary part of the model value is 0 *)
+Definition qc_close (tol : Q) (x y : QI) : bool :=
+  Qle_bool (Qabs (this (fst x) - this (fst y))) (tol * (1 + Qabs (this (fst y)))) && Qc_eq_bool (snd y) (Q2Qc 0).
+Definition qc_pos (x : QI) : bool := Qle_bool 0 (this (fst x)) && negb (Qeq_bool 0 (this (fst x))).
+Fixpoint all2 {A B} (f : A -> B -> bool) (l : list A) (m : list B) : bool :=
+  match l, m with
+  | [], [] => true
+  | a :: l', b :: m' => f a b && all2 f l' m'
+  | _, _ => false
+  end.
+
+(* ---- real-number level: Student t specification of the table, and the log10 variant *)
+From Coq Require Import Reals Qreals.
+From Coquelicot Require Import Coquelicot.
+
+(* Gamma((nu+1)/2) / Gamma(nu/2), closed form: g(1) = 1/sqrt(pi), g(2) = sqrt(pi)/2, g(nu+2) = (nu+1)/nu * g(nu) *)
+Fixpoint t_gratio (nu : nat) : R :=
+  match nu with
+  | O => 0%R
+  | S O => (/ sqrt PI)%R
+  | S (S O) => (sqrt PI / 2)%R
+  | S (S m) => (IZR (Z.of_nat (S m)) / IZR (Z.of_nat m) * t_gratio m)%R
+  end.
+(* density of Student's t with nu degrees of freedom: t_norm nu * t_kernel nu x *)
+Definition t_norm (nu : nat) : R := (t_gratio nu / sqrt (IZR (Z.of_nat nu) * PI))%R.
+Definition t_kernel (nu : nat) (x : R) : R :=
+  let b := (1 + x * x / IZR (Z.of_nat nu))%R in
+  if Nat.odd nu then (/ (b ^ (Nat.div2 (S nu))))%R else (/ (b ^ (Nat.div2 nu) * sqrt b))%R.
+(* P(|T| <= t) = level, to 1e-10 *)
+Definition tstat_ok (level : Q) (nu : nat) (t : Q) : Prop :=
+  (Rabs (2 * t_norm nu * RInt (t_kernel nu) 0 (Q2R t) - Q2R level) <= / 10000000000)%R.
+Definition tstat_entry_ok (e : Q * nat * Q) : Prop := tstat_ok (fst (fst e)) (snd (fst e)) (snd e).
+
+(* crlb(..., log=True): cost_log = log10(cost), grad_log = grad / cost / ln 10 *)
+Definition crlb_log_cost (cost : R) : R := (ln cost / ln 10)%R.
+Definition crlb_log_grad (cost grad : R) : R := (grad / cost / ln 10)%R.
